@@ -2340,6 +2340,65 @@ var rWriteFaithful = &Rule{
 				fmt.Sprintf("a separator written in place of a pending newline can be empty (minimal length %d over the two modes, known=%v): in that mode consecutive newlines collapse into one, so a message with an empty line renders differently from its Error() text (and a barrier around it no longer keeps the text exactly)", lo, known))
 		})
 		c.Min("separator writes in Write", nSep, 2)
+		// newlines are held back in the detail mode only: the deferral ('avoid terminating error details with excess
+		// newline characters') gives a held-back newline back when a later byte arrives, so a newline that is the
+		// last - or, before anything was written, the first - thing a layer prints is lost. Outside the detail mode
+		// the text is the error message itself and %v / %s must render exactly Error()
+		nDefer := 0
+		wreg.each(func(in ssa.Instruction) {
+			st, ok := in.(*ssa.Store)
+			if !ok {
+				return
+			}
+			fa, ok := st.Addr.(*ssa.FieldAddr)
+			if !ok || sx.FieldOf(fa).Name() != "needNewline" {
+				return
+			}
+			inc, ok := st.Val.(*ssa.BinOp)
+			if !ok || inc.Op != token.ADD {
+				return
+			}
+			nDefer++
+			inDetail := false
+			for _, l := range wreg.lits(st.Block()) {
+				v, neg := l.V, l.Neg
+				if not, isNot := v.(*ssa.UnOp); isNot && not.Op == token.NOT {
+					v, neg = not.X, !neg
+				}
+				if ld, isLd := v.(*ssa.UnOp); isLd && ld.Op == token.MUL && !neg {
+					if f2, isFA := ld.X.(*ssa.FieldAddr); isFA && sx.FieldOf(f2).Name() == "wantDetail" {
+						inDetail = true
+					}
+				}
+			}
+			if !inDetail {
+				// not a dominating test: decide path-sensitively (`if c == '\n' && !s.wantDetail { …; continue }` followed by
+				// a second `if c == '\n'` is the same thing spelled flat)
+				fn := st.Parent()
+				var wd *ssa.UnOp
+				stored := false
+				sx.EachInstr(fn, func(in2 ssa.Instruction) {
+					switch y := in2.(type) {
+					case *ssa.UnOp:
+						if f2, isFA := y.X.(*ssa.FieldAddr); isFA && y.Op == token.MUL && sx.FieldOf(f2).Name() == "wantDetail" {
+							if _, isParam := f2.X.(*ssa.Parameter); isParam {
+								wd = y
+							}
+						}
+					case *ssa.Store:
+						if f2, isFA := y.Addr.(*ssa.FieldAddr); isFA && sx.FieldOf(f2).Name() == "wantDetail" {
+							stored = true
+						}
+					}
+				})
+				if wd != nil && !stored {
+					inDetail = !reachableWithout(fn, st.Block(), canonCond(wd, 0), true)
+				}
+			}
+			c.Check(inDetail, "(*errbase.state).Write: newlines held back", st.Pos(), "only in the detail mode",
+				"Write holds a newline back (and gives it back only when a later byte arrives) outside the detail mode too: a message that ends - or starts - with a newline is rendered without it by %v / %s, so they differ from Error(), and a wrapper above it that an unknowing process renders through the formatter changes its text in transit")
+		})
+		c.Min("newline deferrals in Write", nDefer, 1)
 	},
 }
 
